@@ -6,9 +6,29 @@ def I(params, grid=None, tiers=("quick", "thorough"), **kw):
     d = {"entry": "VP_C11_Handshake", "tiers": list(tiers), "params": params, "timeout_s": 1200, "max_steps": 400000000, "unwind": 1000000, "max_alloc": 4194304}
     if grid: d["grid"] = grid
     d.update(kw); inst.append(d)
-I({"sym": 1, "case": 0, "no8bit": 0, "types": 0, "limit": 0})
+I({"sym": 1, "case": 0, "no8bit": 0, "types": 0, "limit": 0}, expect_reach=["data-verified"])
+I({"sym": 1, "case": 0, "no8bit": 0, "types": 0}, {"limit": [512, 1232, 4096]})
+I({"sym": 1, "no8bit": 0, "types": 0, "limit": 0}, {"case": [1, 2]})
+I({"sym": 1, "case": 0, "no8bit": 1, "types": 0, "limit": 0})
+I({"sym": 1, "case": 0, "no8bit": 0, "limit": 0}, {"types": [1, 2, 4, 5]})
+I({"sym": 0, "case": 0, "no8bit": 0, "limit": 0, "types": 3})
+I({"sym": 1, "case": 0, "no8bit": 0, "limit": 0, "types": 3}, tiers=("thorough",))
+I({"sym": 1, "case": 1, "no8bit": 1, "types": 2, "limit": 512})
+I({"sym": 2}, {"case": [0, 1, 2], "no8bit": [0, 1], "types": [0, 1, 2, 3, 4, 5], "limit": [0, 512, 1232, 2048, 4096]}, tiers=("thorough",))
 spec = {"property": "C11", "package": D, "files": ["c11_handshake.go"], "native_replay": False,
         "stubs": [{"target": "github.com/bokysan/socketace/v2/internal/streams/dns/commands.randomChars", "with": D + ".vp11RandomChars"},
                   {"target": "math/rand.Intn", "with": D + ".vp11Intn"}],
-        "instances": inst, "bounds": {}, "assumptions": []}
+        "instances": inst,
+ "bounds": {
+  "paths": "path behaviours = products of: query-name case {kept, lowered, uppered} x names with 8-bit/control bytes {delivered, dropped} x answer types let through {all, all but NULL, CNAME+A, TXT only, MX+SRV, A+AAAA} x answer size limit {none, 512, 1232, 2048, 4096 wire bytes}; quick: each dimension varied alone plus one combined path (13 paths), thorough: the full product (180 paths)",
+  "negotiation": "the real ClientDnsConnection.Handshake (query-type, EDNS0, upstream codec, downstream codec, lazy mode, fragment size) against the real ServerDnsListener.onMessage, every exchange through miekg's real Msg.Pack/Unpack in both directions; it must end within 400 exchanges (a run on a transparent path needs about 120)",
+  "data": "after a successful negotiation one full-size upstream fragment (client Write -> server Read) and one full-size downstream fragment (server Write -> client poll/Read) whose first and last byte are arbitrary (2 at each end, thorough) travel over the same path and must arrive unchanged",
+  "outside": "random per-letter case flipping (0x20 hardening), resolvers that cache or reorder, timing (a dropped exchange is an immediate timeout error; timers fire only when nothing else can run), more than one fragment per direction"
+ },
+ "assumptions": [
+  "the path is the harness communicator vp11Path (harness/C11/c11_handshake.go): deterministic per-exchange behaviour as listed; dropped exchanges return a net.Error with Timeout() = true",
+  "commands.randomChars and math/rand.Intn are stubbed to constants (cache-busting characters and poll jitter do not matter here)",
+  "server I/O (ServerCommunicator) is a fake; onMessage is called as the real communicator calls it",
+  "no native replay: counterexamples are replayed in the engine's concrete mode; the findings are reproduced natively by scenarios/c11_handshake_test.go"
+ ]}
 json.dump(spec, open(os.path.join(os.path.dirname(os.path.abspath(__file__)), "..", "harness", "C11", "spec.json"), "w"), indent=1)
